@@ -54,6 +54,7 @@ class Level:
         self.circuit = circuit
         self.path = path
         self.handles: List[Any] = []
+        self.last_entries: List[Any] = []
         self.children: List[Optional["Level"]] = []
         self.mnodes: List[M.MNode] = []
 
@@ -205,6 +206,16 @@ def _observe_link(built: Built, level: Level, handle, mnode: M.MNode, step: Dict
     M.attach(level.mnodes, mnode, level.mnodes[j], M.FB)
 
 
+def _reference(built: Built, level: Level, idx: int):
+    """The object a relation to step ``idx`` is built from: the handle returned by add(), or - for every other reference to the
+    step added last - what get_last_entry() returned right after that add (the two are promised to be the same object)."""
+    if idx == len(level.handles) - 1 and (idx + len(level.path)) % 2 == 0 and idx < len(level.last_entries) \
+            and not isinstance(level.last_entries[idx], Exception):
+        built.count("relations_built_from_last_entry")
+        return level.last_entries[idx]
+    return level.handles[idx]
+
+
 def _add_step(built: Built, level: Level, stack: List[Level], i: int, step: Dict[str, Any]):
     """Execute one step on ``level`` (``stack`` ends with ``level``) and observe the installed link."""
     from qce_circuit.structure.intrf_circuit_operation import RelationLink, RelationType
@@ -215,7 +226,7 @@ def _add_step(built: Built, level: Level, stack: List[Level], i: int, step: Dict
         # a sub-circuit with an explicit relation: built with that relation and added as an operation (add_operation keeps the
         # object and its relation; add / add_sub_circuit copy it and re-point the relation through an empty lookup)
         rel = step["rel"]
-        relation = RelationLink(level.handles[rel[1]], RelationType[rel[0]])
+        relation = RelationLink(_reference(built, level, rel[1]), RelationType[rel[0]])
         child = _build_level(step["sub"], built, stack, path + (i,), relation=relation)
         handle = circuit.add_operation(child.circuit.circuit_structure)
         mnode = M.MNode(is_block=True, sub=child.mnodes, reps=step["sub"].get("reps", 1), kind="<block>")
@@ -238,7 +249,7 @@ def _add_step(built: Built, level: Level, stack: List[Level], i: int, step: Dict
         rel = step.get("rel")
         relation = None
         if rel is not None:
-            relation = RelationLink(level.handles[rel[1]], RelationType[rel[0]])
+            relation = RelationLink(_reference(built, level, rel[1]), RelationType[rel[0]])
         op = make_op(step, ctx, stack, relation)
         handle = circuit.add(op)
         if handle is not op:
@@ -255,6 +266,7 @@ def _add_step(built: Built, level: Level, stack: List[Level], i: int, step: Dict
         built.link_violations.append({"path": list(path), "idx": i, "kind": step.get("k", "sub"), "what": "get_last_entry() is not the handle returned by the last add"})
     _observe_link(built, level, handle, mnode, step)
     level.handles.append(handle)
+    level.last_entries.append(last)
     return handle
 
 
